@@ -258,3 +258,5 @@ func engineRT(c config, o *out) {
 		}
 	}
 }
+
+func protowireConsumeTag(b []byte) (protowire.Number, protowire.Type, int) { return protowire.ConsumeTag(b) }
